@@ -467,6 +467,40 @@ def r6(F, R):
 
 
 
+def r8(F, R):
+    """A storage backend that buffers its output reports the failure of the final write."""
+    R.rule("C13-R8", "every ChainStorage whose struct owns a std::io::BufWriter flushes it explicitly in finalize() and propagates the result: bytes left to the "
+                     "BufWriter's Drop are written with their I/O error ignored (a full disk at the end of the run would be reported as success)")
+    n = 0
+    for p_, a in sorted(F.adts.items()):
+        if not a.get("variants") or not p_.startswith("storage::"):
+            continue
+        wf = [f["name"] for f in a["variants"][0]["fields"] if "BufWriter<" in f["ty"]]
+        if not wf:
+            continue
+        fins = [b for b in F.trait_method_impls("ChainStorage", "finalize") if strip_generics(b.parent.get("self_adt") or "") == strip_generics(p_)]
+        for b in fins:
+            n += 1
+            key = "%s:final-flush" % b.path
+            site = "%s @%s" % (b.path, b.loc())
+            from .c05 import agg_blocks
+            oks = [x[0] for x in agg_blocks(b, "Result", "Ok") if x[1]["pl"]["l"] == 0]
+            okk = False
+            for bb, t in b.calls():
+                c = t["callee"]
+                if c.get("name") == "flush" and "BufWriter" in str(c.get("self_ty") or c.get("impl_self") or c.get("path")):
+                    outs = E.classify(b, t["dest"]["l"]) if not t["dest"]["p"] else []
+                    if any(o.kind in ("propagated", "returned") for o in outs) and oks and all(b.dominates(bb, o_) for o_ in oks):
+                        okk = True
+            if okk:
+                R.ok("C13-R8", key, site, "finalize flushes self.%s and propagates the result" % wf[0])
+            else:
+                R.bad("C13-R8", key, site, "finalize does not flush the BufWriter (field %s) with its result propagated on every successful return: the last buffered rows "
+                      "are written by Drop, which swallows the I/O error" % wf[0])
+    R.floor("C13-R8", 1)
+
+
+
 def run(F, R, config="all"):
     feats = (F.crates and [c for c in F.crates if c["name"] == "nuts_rs"][0]["features"]) or []
     if "parallel" not in feats:
@@ -482,4 +516,9 @@ def run(F, R, config="all"):
     from . import c05
     c05.r1(F, R, rid="C13-R5")
     r6(F, R)
+    r8(F, R)
+    # a panic in the chain worker is not an Err: the MCLMC retry bookkeeping must cover its step budget or `assert!(steps_taken >= num_base_steps)` fires
+    from . import c18
+    K.borrow_rule(R, lambda sub: c18.r4(F, sub), "C13-R7", "recoverable density errors inside an MCLMC trajectory are retried with a smaller step without ever tripping the "
+                  "kernel's step-count assertion (C18-R4 analysis of the retry stack)", only_rules={"C18-R4"})
     R.assume("user-supplied Math/Model implementations may fail at any call; panics inside them are out of scope")
